@@ -154,6 +154,7 @@ func (p *jsonPathParser) setNodeChain() {
 		last := root
 		for _, next := range p.params[1:] {
 			if funcNode, ok := next.(*syntaxAggregateFunction); ok {
+				p.updateValueGroup(root)
 				funcNode.param = root
 				p.updateAccessorMode(funcNode.param, false)
 				root = funcNode
@@ -196,7 +197,12 @@ func (p *jsonPathParser) setConnectedText(targetNode syntaxNode, postfix ...stri
 }
 
 func (p *jsonPathParser) updateRootValueGroup() {
-	rootNode := p.params[0].(syntaxNode)
+	p.updateValueGroup(p.params[0].(syntaxNode))
+}
+
+// updateValueGroup marks the head of a chain as a value group when any node
+// of the chain is one.
+func (p *jsonPathParser) updateValueGroup(rootNode syntaxNode) {
 	checkNode := rootNode
 	for checkNode != nil {
 		if checkNode.isValueGroup() {
